@@ -4,7 +4,8 @@ Tie: all three entropy sources of the real code are instrumented AT ONCE, only w
 runs -- a recording wrapper around the seeded generator (G), logging proxies for every module-level
 function of `numpy.random` (GLOBAL) and a replacement of `numpy.random.default_rng` that tags a
 generator made without a seed FRESH (and one made with a seed G: that is how the command-line
-steps and `sampling.sample` obtain theirs) -- and the sequence of (source, kind) events is compared
+steps and `sampling.sample` obtain theirs; `numpy.random.SeedSequence` is replaced by a recording subclass so
+that a SeedSequence made WITHOUT entropy, its children, and any generator built from them are FRESH too) -- and the sequence of (source, kind) events is compared
 with the Lean model's `Batchie.Rand.trace` for the same operation and input shape (driver_c18).
 
 Oracles (implementation only), every operation run twice on freshly rebuilt equal inputs with an
@@ -39,12 +40,38 @@ RULE = ("random 2-treatment screens (1-3 samples, 3-6 treatments + control, one-
         "dbal_fast_gauss_scoring_vectorized with max_combos < C(n,3), GaussianDBALScorer/RandomScorer/SizeScorer through score_chunk, "
         "KPerSamplePlatePolicy, select_next_plate, sample_mvn_from_precision, one Gibbs sweep and sampling.sample of both MCMC models "
         "(all sampler options; also on a model that already HOLDS a generator -- constructor rng= / earlier set_rng -- compared with a fresh "
-        "model, and a fully resetting stub model trained three times in one process with generators tagged by identity), the four CLI mains with --seed; each run twice (global generator reseeded differently, unrelated "
+        "model, a fully resetting stub model trained three times in one process with generators tagged by identity, and each REAL Gibbs model "
+        "object trained twice -- sample(s1); sample(s2) -- with the whole history repeated on a rebuilt object under a perturbed global state), "
+        "the CLI mains with --seed (prepare_retrospective_simulation, calculate_scores, select_next_plate, train_model, evaluate_model); "
+        "seed 0 (the default of every --seed, the falsy boundary) in about a fifth of the cases; SeedSequence() without entropy is "
+        "recorded as a FRESH source; each run twice (global generator reseeded differently, unrelated "
         "global draws interleaved). Shape parameters of the model trace are computed from the operation's inputs, except the "
         "value-dependent ones (greedy cover completion rounds, ensemble smoother truncations) which are taken from the observed "
         "event count. Non-trivial: the operation completed and made at least one draw.")
 
 _ORIG_DEFAULT_RNG = np.random.default_rng
+_ORIG_SEEDSEQ = np.random.SeedSequence
+_SS_LOG = [None]          # the event list of the active Instr (None: not instrumenting)
+
+
+class RecSeedSequence(_ORIG_SEEDSEQ):
+    """numpy.random.SeedSequence that records when it is created WITHOUT entropy (= OS entropy): `SeedSequence(None)` is how
+    a seed of None / a dropped seed turns into an irreproducible generator without any call of default_rng()"""
+
+    def __init__(self, entropy=None, **kw):
+        super().__init__(entropy, **kw)
+        self.verif_fresh = entropy is None
+        if entropy is None and _SS_LOG[0] is not None:
+            _SS_LOG[0].append("FRESH.seedseq")
+
+    def spawn(self, n_children):
+        kids = super().spawn(n_children)
+        for k in kids:
+            try:
+                k.verif_fresh = self.verif_fresh
+            except Exception:
+                pass
+        return kids
 _GLOBAL_EXCLUDE = {"Generator", "RandomState", "SeedSequence", "BitGenerator", "MT19937", "PCG64", "PCG64DXSM", "Philox", "SFC64",
                    "default_rng", "get_state", "set_state", "get_bit_generator", "set_bit_generator", "test", "bit_generator", "mtrand"}
 _GEN_NODRAW = {"spawn", "bit_generator"}
@@ -101,6 +128,10 @@ class Instr:
                 return proxy
             setattr(np.random, name, mk(f, name))
         self._saved["default_rng"] = np.random.default_rng
+        self._saved["SeedSequence"] = np.random.SeedSequence
+        np.random.SeedSequence = RecSeedSequence
+        self._ss_prev = _SS_LOG[0]
+        _SS_LOG[0] = log
 
         def default_rng(seed=None):
             if isinstance(seed, RecGen):
@@ -110,6 +141,9 @@ class Instr:
             if seed is None:
                 log.append("FRESH.newgen")
                 return RecGen(_ORIG_DEFAULT_RNG(), "FRESH", log)
+            if getattr(seed, "verif_fresh", False):          # a SeedSequence made from OS entropy (or spawned from one)
+                log.append("FRESH.newgen")
+                return RecGen(_ORIG_DEFAULT_RNG(seed), "FRESH", log)
             if self.tag_ids:
                 self.n_seeded += 1
                 return RecGen(_ORIG_DEFAULT_RNG(seed), "G%d" % self.n_seeded, log)
@@ -121,6 +155,7 @@ class Instr:
         for name, f in self._saved.items():
             setattr(np.random, name, f)
         self._saved = {}
+        _SS_LOG[0] = self._ss_prev
         return False
 
 
@@ -674,11 +709,33 @@ def op_cli_train(case, G, ins, tmp):
     return "cliTrainModel", toks + ["steps=%d" % (case["n_burnin"] + case["n_thetas"] * case["thin"])], H10.show_holder(h)
 
 
+def op_cli_evaluate(case, G, ins, tmp):
+    from batchie.cli import evaluate_model as M
+    s = build_screen(case["screen"])
+    r = pyrandom.Random(case["data_seed"])
+    data, out = os.path.join(tmp, "data.h5"), os.path.join(tmp, "me.h5")
+    s.save_h5(data)
+    files = []
+    for i, n in enumerate(case["chains"]):
+        fn = os.path.join(tmp, "chain%d.h5" % i)
+        make_thetas(r, s, n).save_h5(fn)
+        files.append(fn)
+    _run_main(M, ["evaluate_model", "--screen", data, "--thetas"] + files + ["--output", out, "--seed", str(case["seed"])])
+    import h5py
+    parts = []
+    with h5py.File(out, "r") as f:
+        def visit(name, obj):
+            if isinstance(obj, h5py.Dataset):
+                parts.append(name + "=" + np.asarray(obj[()]).tobytes().hex())
+        f.visititems(visit)
+    return "cliEvaluateModel", [], common.short_hash(sorted(parts))
+
+
 OPS = {"sparse_cover": op_sparse_cover, "generator": op_generator, "smoother": op_smoother, "holdout_random": op_holdout_random,
        "holdout_plate": op_holdout_plate, "scorer_random": op_scorer_random, "dbal_direct": op_dbal_direct, "policy": op_policy,
        "select_next_plate": op_select_next_plate, "score_chunk": op_score_chunk, "sample_mvn": op_sample_mvn, "gibbs_sweep": op_gibbs_sweep,
        "sample_mcmc": op_sample_mcmc, "cli_prepare": op_cli_prepare, "cli_scores": op_cli_scores, "cli_select": op_cli_select,
-       "cli_train": op_cli_train}
+       "cli_train": op_cli_train, "cli_evaluate": op_cli_evaluate}
 
 
 # ------------------------------------------------------------------ running one case
@@ -761,7 +818,8 @@ def gen_smoother_spec(rng):
 
 
 def gen_case(rng, op):
-    case = {"op": op, "seed": rng.getrandbits(31), "gseed": rng.getrandbits(31)}
+    # seed 0 is the default of every --seed option and the classic "falsy" boundary (`if seed:` / `seed or None`)
+    case = {"op": op, "seed": (0 if rng.random() < 0.2 else rng.getrandbits(31)), "gseed": rng.getrandbits(31)}
     if op == "sparse_cover":
         case.update(screen=gen_raw_screen(rng, all_observed=True), reveal=rng.random() < 0.5)
     elif op == "generator":
@@ -809,6 +867,8 @@ def gen_case(rng, op):
                     n_chunks=nc, chunk_index=rng.randrange(nc), data_seed=rng.getrandbits(31))
     elif op == "cli_select":
         case.update(screen=gen_raw_screen(rng), k=rng.randint(1, 2), n_batch=rng.randint(0, 2), policy=rng.random() < 0.6, data_seed=rng.getrandbits(31))
+    elif op == "cli_evaluate":
+        case.update(screen=gen_raw_screen(rng, all_observed=True), chains=[rng.randint(1, 3) for _ in range(rng.randint(1, 3))], data_seed=rng.getrandbits(31))
     elif op == "cli_train":
         nch = rng.randint(1, 2)
         ms = gen_model_spec(rng)
@@ -968,14 +1028,73 @@ def judge_train_stub(case, res, queue=None):
     return calls
 
 
+def train_sequence(case, variant_index):
+    """sampling.sample called twice (seeds s1, s2) on ONE real Gibbs model object; every seeded generator is tagged by creation order"""
+    from batchie import sampling
+    from batchie.core import ThetaHolder
+    _perturb(case["gseed"], variant_index)
+    s = build_screen(case["screen"])
+    ins = Instr(tag_ids=True)
+    r = {"calls": [], "err": None, "toks": None}
+    before = global_sig()
+    try:
+        with quiet():
+            m = make_model(case["model"], s)
+            r["toks"] = sweep_cfg_tokens(m) + ["steps=%d" % (case["n_burnin"] + case["n_thetas"] * case["thin"])]
+            with ins:
+                for seed in (case["s1"], case["s2"]):
+                    h = ThetaHolder(n_thetas=case["n_thetas"])
+                    start = len(ins.events)
+                    sampling.sample(m, h, seed=seed, n_chains=case["n_chains"], chain_index=case["chain_index"], n_burnin=case["n_burnin"], thin=case["thin"])
+                    ev = ins.events[start:]
+                    r["calls"].append({"seed": seed, "out": H10.show_holder(h), "draws_from": sorted({e.split(".")[0] for e in ev}),
+                                       "generator_of_this_call": "G%d" % ins.n_seeded, "kinds": [e.split(".", 1)[1] for e in ev]})
+    except Exception as e:
+        r["err"] = type(e).__name__ + ": " + str(e)[:160]
+    r["gstate_same"] = global_sig() == before
+    return r
+
+
+def judge_train_twice(case, res, queue=None):
+    """the whole two-call history is repeated on a second, freshly built object under a perturbed global state"""
+    A = train_sequence(case, 0)
+    B = train_sequence(case, 1)
+    if A["err"] or B["err"]:
+        if (A["err"] or "").split(":")[0] != (B["err"] or "").split(":")[0]:
+            res.fail("training the same model object twice: one history raises, its repetition does not", case, {"run1": A["err"], "run2": B["err"]},
+                     "identical behaviour", signature="C18:two-runs-differ:train_twice")
+        return None
+    report = [{k: (v[:80] if k == "out" else v) for k, v in c.items() if k != "kinds"} for c in A["calls"] + B["calls"]]
+    stale = [c for c in A["calls"] + B["calls"] if c["kinds"] and c["draws_from"] != [c["generator_of_this_call"]]]
+    if stale:
+        res.fail("sampling.sample on a model object that was trained before: the draws do not come (only) from the generator created by THIS call",
+                 case, report, "call i draws only from the generator call i created", signature="C18:sample-draws-from-stale-generator")
+    if not (A["gstate_same"] and B["gstate_same"]):
+        res.fail("sampling.sample perturbs the process-global random state", case, {}, "global state unchanged", signature="C18:global-state-perturbed:train_twice")
+    if [c["out"] for c in A["calls"]] != [c["out"] for c in B["calls"]]:
+        res.fail("the history sample(seed=%d); sample(seed=%d) on one model object, repeated on an identically built object with the global generator "
+                 "reseeded differently, gives different thetas" % (case["s1"], case["s2"]), case, report, "identical thetas call by call",
+                 signature="C18:two-runs-differ:train_twice")
+    if queue is not None:
+        for c in A["calls"]:
+            queue("train_twice", case, " ".join(["c18.trace", "sampleMCMC"] + A["toks"]), ",".join("G." + k for k in c["kinds"]) if c["kinds"] else "-")
+        if all(c["kinds"] for c in A["calls"]):
+            queue("sample_calls", case, "c18.calls - 1,2",
+                  ",".join(c["draws_from"][0][1:] if len(c["draws_from"]) == 1 and c["draws_from"][0].startswith("G") else "?" for c in A["calls"]))
+    return A
+
+
 def gen_train_case(rng, op):
     nch = rng.randint(1, 3)
     case = {"op": op, "gseed": rng.getrandbits(31), "n_thetas": rng.randint(1, 3), "n_burnin": rng.randint(0, 2), "thin": rng.randint(1, 2),
             "n_chains": nch, "chain_index": rng.randrange(nch), "k1": rng.randint(0, 50), "k2": rng.randint(51, 99)}
     if op == "train_held":
-        case.update(screen=gen_raw_screen(rng), model=gen_model_spec(rng), seed=rng.getrandbits(31))
+        case.update(screen=gen_raw_screen(rng), model=gen_model_spec(rng), seed=(0 if rng.random() < 0.25 else rng.getrandbits(31)))
+    elif op == "train_twice":
+        s1, s2 = (0, rng.randint(1, 40)) if rng.random() < 0.3 else (rng.randint(1, 40), 0) if rng.random() < 0.3 else (rng.randint(0, 20), rng.randint(21, 40))
+        case.update(screen=gen_raw_screen(rng), model=gen_model_spec(rng), s1=s1, s2=s2)
     else:
-        case.update(d=rng.randint(1, 3), s1=rng.randint(0, 20), s2=rng.randint(21, 40), held=rng.random() < 0.3)
+        case.update(d=rng.randint(1, 3), s1=(0 if rng.random() < 0.3 else rng.randint(0, 20)), s2=rng.randint(21, 40), held=rng.random() < 0.3)
     return case
 
 
@@ -1055,6 +1174,8 @@ def run(ctx, res):
             n = max(20, per_op // 3)
         for t in range(n):
             case = gen_case(rng, op)
+            if t % 6 == 1:
+                case["seed"] = 0
             res.evaluations += 1
             A, nontrivial = judge(case, res, queue)
             res.count("op." + op)
@@ -1062,6 +1183,8 @@ def run(ctx, res):
                 res.count("raised." + op)
             if not in_scope(case):
                 res.count("norng." + op)
+            if case["seed"] == 0:
+                res.count("seed0." + op)
             if nontrivial:
                 res.nontrivial.add(common.short_hash(case))
                 res.count("drew." + op)
@@ -1076,7 +1199,7 @@ def run(ctx, res):
             if t == 0:
                 res.sample({"op": op, "model_line": (" ".join(["c18.trace", A["model_op"]] + A["toks"]) if A["err"] is None else A["err"]),
                             "events": A["events"][:12], "n_events": len(A["events"])})
-    for op, fn in (("train_held", judge_train_held), ("train_stub", judge_train_stub)):
+    for op, fn in (("train_held", judge_train_held), ("train_stub", judge_train_stub), ("train_twice", judge_train_twice)):
         for t in range(ctx.scale(16, 200, 80)):
             case = gen_train_case(rng, op)
             res.evaluations += 1
@@ -1086,8 +1209,10 @@ def run(ctx, res):
                 res.nontrivial.add(common.short_hash(case))
             if op == "train_stub" and case["held"]:
                 res.count("train_stub.held")
-            if op == "train_held":
-                res.count("train_held." + case["model"]["kind"])
+            if op in ("train_held", "train_twice"):
+                res.count(op + "." + case["model"]["kind"])
+            if 0 in (case.get("seed"), case.get("s1"), case.get("s2")):
+                res.count("seed0." + op)
     vi_case = {"op": "sample_vi", "seed": 5, "gseed": rng.getrandbits(20)}
     res.evaluations += 1
     run_vi(res, vi_case)
@@ -1111,5 +1236,8 @@ def replay(ctx, case, res):
         return
     if case.get("op") == "train_stub":
         judge_train_stub(case, res, None)
+        return
+    if case.get("op") == "train_twice":
+        judge_train_twice(case, res, None)
         return
     judge(case, res, None)
